@@ -143,3 +143,32 @@ func init() {
 		os.Exit(0)
 	}
 }
+
+func init() {
+	v := os.Getenv("LUNGOCHECK_DBG")
+	if len(v) > 5 && v[:5] == "vals:" {
+		repo := os.Getenv("LUNGOCHECK_REPO")
+		if repo == "" {
+			repo = "/repo"
+		}
+		c, err := loadRepo(repo, true)
+		if err != nil {
+			panic(err)
+		}
+		s := shareAnalysis(c)
+		for _, fn := range s.funcs {
+			if fn.Name() != v[5:] {
+				continue
+			}
+			for _, b := range fn.Blocks {
+				for _, in := range b.Instrs {
+					if val, ok := in.(ssa.Value); ok {
+						t := s.get(val)
+						fmt.Printf("%-8s %-60.60s top=%s deep=%s extra=%s\n", val.Name(), in.String(), taintStr(t.top), taintStr(t.deep), taintStr(s.extra[val]))
+					}
+				}
+			}
+		}
+		os.Exit(0)
+	}
+}
